@@ -250,3 +250,17 @@ def drift(rng, tier):
             samples.append(dict(group=g, dtype=str(dtype), worst_unit_error_over_n_eps=worst))
     return dict(evaluations=evals, distinct_nontrivial=evals, rule='random operation histories; each operation is one evaluation; validity checked every 50 operations',
                 bound=f'{n_ops} operations per (group, dtype)', failures=fails[:8], samples=samples[:4])
+
+
+# retractions (Retr / add_ / a.Exp() @ X) hand their increment to Exp: "results of retractions remain valid group elements (unit quaternion,
+# positive scale) to round-off" rests on Exp being accurate to round-off in BOTH dtypes over the property's range of log-scales (a scale
+# computed as 1 + expm1(sigma) is exact in real arithmetic and loses all its digits for sigma << 0): the float stand-in of c01_exp.py is
+# run in this check too.
+from contracts import c01_exp as _c01
+def _exp_float_valid(rng, tier):
+    """the rotation / scale block of Exp in float32 and float64 against 50-digit arithmetic (the clause of C01.float_accuracy that decides whether
+    the result of a retraction is a valid group element; the translation-block clause belongs to C01 alone)"""
+    r = dict(_c01.float_accuracy(rng, tier))
+    r['failures'] = [f for f in r.get('failures', []) if f.get('clause') == 'rotation_scale_block']
+    return r
+bounded('C03.callee.Exp.float', functions=[f'{OPS}:so3_Exp.forward', f'{OPS}:se3_Exp.forward', f'{OPS}:rxso3_Exp.forward', f'{OPS}:sim3_Exp.forward'])(_exp_float_valid)
